@@ -139,6 +139,9 @@ func init() {
 					if isEngineAbort(r) {
 						panic(r)
 					}
+					if _, ok := r.(string); ok {
+						panic(r) // interpreter-internal: not a target panic
+					}
 					switch r := r.(type) {
 					case targetPanic:
 						msg = "panic: " + toString(r.v)
@@ -164,6 +167,11 @@ func init() {
 	ext("SpecSub", func(fr *frame, a []value) value { return specArith("-", a[0], a[1], a[2]) })
 	ext("FitsMul", func(fr *frame, a []value) value { return specFits("*", a[0], a[1]) })
 	ext("FitsAdd", func(fr *frame, a []value) value { return specFits("+", a[0], a[1]) })
+	ext("SpecPow", func(fr *frame, a []value) value { return boolVal(teq(powTerm(a[0], a[1]), asIntTerm(a[2]))) })
+	ext("FitsPow", func(fr *frame, a []value) value {
+		r := powTerm(a[0], a[1])
+		return boolVal(tand(mkBool("<=", intConstBig(new(big.Int).Neg(pow2[63])), r), mkBool("<", r, intConstBig(pow2[63]))))
+	})
 	ext("FitsSub", func(fr *frame, a []value) value { return specFits("-", a[0], a[1]) })
 }
 
@@ -206,8 +214,12 @@ func specMod(a, b, r value) value {
 	A, B, R := asIntTerm(a), asIntTerm(b), asIntTerm(r)
 	z := intConst(0)
 	abs := func(t *Term) *Term { return tite(mkBool("<", t, z), mkInt("-", t), t) }
+	// Euclidean division of a-r by b (exists and is unique for b != 0): a-r = k*b + m, 0 <= m < |b|.
+	// Adding it to the path restricts nothing; divisibility is then m == 0.
+	k, m := theEngine.freshAux(), theEngine.freshAux()
 	d := mkInt("-", A, R)
-	return boolVal(tand(mkBool("<", abs(R), abs(B)), teq(mkInt("mod", d, B), z)))
+	theEngine.X.addPC(tor(teq(B, z), tand(teq(d, mkInt("+", mkInt("*", k, B), m)), mkBool("<=", z, m), mkBool("<", m, abs(B)))))
+	return boolVal(tand(mkBool("<", abs(R), abs(B)), teq(m, z)))
 }
 
 func specArith(op string, a, b, res value) value {
@@ -219,4 +231,22 @@ func specFits(op string, a, b value) value {
 	A, B := asIntTerm(a), asIntTerm(b)
 	r := mkInt(op, A, B)
 	return boolVal(tand(mkBool("<=", intConstBig(new(big.Int).Neg(pow2[63])), r), mkBool("<", r, intConstBig(pow2[63]))))
+}
+
+// powTerm: a^e as an Int monomial; e must be a concrete non-negative int.
+func powTerm(a, e value) *Term {
+	if isSym(e) {
+		panic(pathAbort{"SpecPow: symbolic exponent"})
+	}
+	n := asInt64(e)
+	A := asIntTerm(a)
+	r := intConst(1)
+	for i := int64(0); i < n; i++ {
+		if i == 0 {
+			r = A
+		} else {
+			r = mkInt("*", r, A)
+		}
+	}
+	return r
 }
